@@ -340,14 +340,11 @@ Definition join_rule_of (auths : list json) : jrule :=
       | CoMissing | CoWrong => JrOther   (* unparseable: the context keeps the zero JoinRuleContent *)
       | CoNull => JrInvite
       | CoObj o =>
-          let allow_good := match field k_allow o with
-                            | None => true | Some JNull => true
-                            | Some (JArr l) => allow_ok l
-                            | Some _ => false end in
+          (* a malformed allow list makes the full decoding fail; join_rule is then read alone *)
           match dec_string (field k_join_rule o) with
           | DBad => JrOther
-          | DAbsent => if allow_good then JrInvite else JrOther
-          | DVal s => if allow_good then jrule_of s else JrOther
+          | DAbsent => JrInvite
+          | DVal s => jrule_of s
           end
       end
   end.
@@ -464,7 +461,9 @@ Definition create_check_of (f : ver_flags) (e : json) : create_check :=
            | DAbsent => true
            | DBad => false
            end;
-         cc_room_id_present := match ev_str k_room_id e with [] => false | _ => true end |}
+         (* the member is there (a JSON null counts as absent, as encoding/json has it) *)
+         cc_room_id_present :=
+           match dec_string (field k_room_id (ev_obj e)) with DVal _ => true | _ => false end |}
   end.
 
 (* the power-levels part of allowerContext.update: (usable event present, effective content) *)
